@@ -436,6 +436,18 @@ def canon_response(status, meta, body, req_path, built: "Built"):
     # (no generated request spelling contains the marker name, so an echo of the request cannot produce it)
     x = {"st": status, "sent": sentinels_in(text), "metasent": sentinels_in(meta or ""), "mark": MARK in text,
          "nobody": body is None or body == ""}
+    # ground truth independent of handler and model: does the requested path - canonical form, a trailing slash meaning
+    # "a directory" - resolve to anything at all?
+    u = url_path(req_path) if isinstance(req_path, str) else ("reject", "")
+    if u[0] == "ok":
+        canon = ref_canonical(u[1])
+        try:
+            # "resolves" in the sense of the property: Path.resolve(strict=True) = os.path.realpath (which cancels `..` in link targets
+            # lexically - not always what the kernel's own walk does; the handler's notion is the one the property speaks of)
+            real = os.path.realpath(os.path.join(built.base, "root", canon.strip("/")) if canon != "/" else os.path.join(built.base, "root"), strict=True)
+            x["resolves"] = os.path.isdir(real) if canon.endswith("/") else True
+        except (OSError, ValueError):
+            x["resolves"] = False
     if status == 20:
         ids = sentinels_in((body or "")[:40])
         if body and body.startswith("@@S") and len(ids) == 1:
